@@ -318,3 +318,73 @@ where
     }));
 }
 
+
+// ------------------------------------------------------------------------------------------------
+// AsPrimitive (num_traits) against the As cast: used by C19 and, as a `siblings` job, by C09
+
+use bnum::cast::{As, CastFrom};
+use num_traits::AsPrimitive;
+
+/// AsPrimitive::as_ equals the As cast (differential)
+pub fn as_primitive_forms<T>(c: &(Pat, Pat, u64), obs: &mut Obs) -> Result<(), String>
+where
+    T: Int + AsPrimitive<u8> + AsPrimitive<u16> + AsPrimitive<u32> + AsPrimitive<u64> + AsPrimitive<u128> + AsPrimitive<usize>
+        + AsPrimitive<i8> + AsPrimitive<i16> + AsPrimitive<i32> + AsPrimitive<i64> + AsPrimitive<i128> + AsPrimitive<isize> + AsPrimitive<f32> + AsPrimitive<f64>
+        + AsPrimitive<T::U> + AsPrimitive<T::I> + AsPrimitive<T::Fam1U> + AsPrimitive<T::Fam3I> + AsPrimitive<T::Fam1I> + AsPrimitive<T::Fam3U>,
+    T: CastFrom<u8> + CastFrom<u16> + CastFrom<u32> + CastFrom<u64> + CastFrom<u128> + CastFrom<usize> + CastFrom<i8> + CastFrom<i16> + CastFrom<i32> + CastFrom<i64> + CastFrom<i128> + CastFrom<isize>
+        + CastFrom<f32> + CastFrom<f64> + CastFrom<char> + CastFrom<bool>,
+    u8: CastFrom<T> + AsPrimitive<T>, u16: CastFrom<T> + AsPrimitive<T>, u32: CastFrom<T> + AsPrimitive<T>, u64: CastFrom<T> + AsPrimitive<T>, u128: CastFrom<T> + AsPrimitive<T>, usize: CastFrom<T> + AsPrimitive<T>,
+    i8: CastFrom<T> + AsPrimitive<T>, i16: CastFrom<T> + AsPrimitive<T>, i32: CastFrom<T> + AsPrimitive<T>, i64: CastFrom<T> + AsPrimitive<T>, i128: CastFrom<T> + AsPrimitive<T>, isize: CastFrom<T> + AsPrimitive<T>,
+    f32: CastFrom<T> + AsPrimitive<T>, f64: CastFrom<T> + AsPrimitive<T>, char: AsPrimitive<T>, bool: AsPrimitive<T>,
+    T::U: CastFrom<T>, T::I: CastFrom<T>, T::Fam1U: CastFrom<T>, T::Fam3I: CastFrom<T>, T::Fam1I: CastFrom<T>, T::Fam3U: CastFrom<T>,
+{
+    let x: T = ld(&c.0);
+    obs.nt();
+    macro_rules! to {
+        ($($p:ty),*) => {$( ck!(concat!("AsPrimitive<", stringify!($p), ">::as_ == As cast"), outcome(|| AsPrimitive::<$p>::as_(x).to_le_bytes().to_vec()), outcome(|| As::as_::<$p>(x).to_le_bytes().to_vec())); )*};
+    }
+    to!(u8, u16, u32, u64, u128, usize, i8, i16, i32, i64, i128, isize);
+    ck!("AsPrimitive<f32>", outcome(|| AsPrimitive::<f32>::as_(x).to_bits()), outcome(|| As::as_::<f32>(x).to_bits()));
+    ck!("AsPrimitive<f64>", outcome(|| AsPrimitive::<f64>::as_(x).to_bits()), outcome(|| As::as_::<f64>(x).to_bits()));
+    // primitive -> bnum
+    macro_rules! from {
+        ($($p:ty),*) => {$(
+            {
+                let nb = std::mem::size_of::<$p>();
+                let v = <$p>::from_le_bytes(c.1 .0[..nb].try_into().unwrap());
+                ck!(concat!("AsPrimitive<bnum> for ", stringify!($p)), oc(|| AsPrimitive::<T>::as_(v)), oc(|| As::as_::<T>(v)));
+            }
+        )*};
+    }
+    from!(u8, u16, u32, u64, u128, usize, i8, i16, i32, i64, i128, isize);
+    let f = f64::from_bits(c.2);
+    ck!("AsPrimitive<bnum> for f64", oc(|| AsPrimitive::<T>::as_(f)), oc(|| As::as_::<T>(f)));
+    let g = f32::from_bits(c.2 as u32);
+    ck!("AsPrimitive<bnum> for f32", oc(|| AsPrimitive::<T>::as_(g)), oc(|| As::as_::<T>(g)));
+    let ch = char::from_u32((c.2 % 0x11_0000) as u32).unwrap_or('x');
+    ck!("AsPrimitive<bnum> for char", oc(|| AsPrimitive::<T>::as_(ch)), oc(|| As::as_::<T>(ch)));
+    ck!("AsPrimitive<bnum> for bool", oc(|| AsPrimitive::<T>::as_(c.2 & 1 == 1)), oc(|| As::as_::<T>(c.2 & 1 == 1)));
+    // bnum -> bnum within the digit family
+    ck!("AsPrimitive<U> (same family)", outcome(|| Pat(AsPrimitive::<T::U>::as_(x).store())), outcome(|| Pat(As::as_::<T::U>(x).store())));
+    ck!("AsPrimitive<I> (same family)", outcome(|| Pat(AsPrimitive::<T::I>::as_(x).store())), outcome(|| Pat(As::as_::<T::I>(x).store())));
+    ck!("AsPrimitive<1-digit U> (same family)", outcome(|| Pat(AsPrimitive::<T::Fam1U>::as_(x).store())), outcome(|| Pat(As::as_::<T::Fam1U>(x).store())));
+    ck!("AsPrimitive<3-digit I> (same family)", outcome(|| Pat(AsPrimitive::<T::Fam3I>::as_(x).store())), outcome(|| Pat(As::as_::<T::Fam3I>(x).store())));
+    ck!("AsPrimitive<1-digit I> (same family)", outcome(|| Pat(AsPrimitive::<T::Fam1I>::as_(x).store())), outcome(|| Pat(As::as_::<T::Fam1I>(x).store())));
+    ck!("AsPrimitive<3-digit U> (same family)", outcome(|| Pat(AsPrimitive::<T::Fam3U>::as_(x).store())), outcome(|| Pat(As::as_::<T::Fam3U>(x).store())));
+    // and against the reference value, so that a slip shared by As and AsPrimitive would still show (C09 covers As itself)
+    ck!("AsPrimitive<3-digit U> value", outcome(|| AsPrimitive::<T::Fam3U>::as_(x).z()), Outcome::Returned(x.z().wrap(<T::Fam3U as Int>::W as u64, false)));
+    ck!("AsPrimitive<3-digit I> value", outcome(|| AsPrimitive::<T::Fam3I>::as_(x).z()), Outcome::Returned(x.z().wrap(<T::Fam3I as Int>::W as u64, true)));
+    Ok(())
+}
+
+
+/// (value, 16 source bytes for the primitive -> bnum direction, float / char / bool bits)
+pub fn as_primitive_cases(sh: Shape) -> BoxedStrategy<(Pat, Pat, u64)> {
+    let src = prop_oneof![
+        3 => proptest::collection::vec(any::<u8>(), 16),
+        2 => proptest::collection::vec(prop_oneof![Just(0u8), Just(0xffu8), Just(0x80u8), Just(0x7fu8), Just(1u8)], 16),
+        1 => (0usize..16).prop_map(|k| (0..16).map(|i| if i < k { 0xffu8 } else { 0 }).collect::<Vec<u8>>()),
+    ]
+    .prop_map(Pat);
+    (prop_oneof![3 => gen::pattern(sh), 1 => gen::boundary(sh)], src, any::<u64>()).boxed()
+}
